@@ -291,7 +291,11 @@ def _flag_store(tree, store):
                 assigned.append(U(node.value))
             elif isinstance(node, (ast.AugAssign, ast.AnnAssign)) and U(node.target) == "self.thread_locals":
                 assigned.append("?")
-        if not assigned or any(a != "threading.local()" for a in assigned):
+        ok = {"threading.local()"}
+        for node in tree.body:                      # `from threading import local` -> `local()` is the same object
+            if isinstance(node, ast.ImportFrom) and node.module == "threading" and node.level == 0:
+                ok |= {"%s()" % (al.asname or al.name) for al in node.names if al.name == "local"}
+        if not assigned or any(a not in ok for a in assigned):
             raise Unsupported("Core.thread_locals is not always a threading.local(): %s" % assigned)
         return "threadLocal"
     parts = store.split(".")
@@ -324,11 +328,14 @@ def _option_names(tree):
             log_names = [e.id for e in t.elts]
         if isinstance(node, ast.Call) and U(node.func) == "get_frame" and len(node.args) == 1:
             a = node.args[0]
-            if isinstance(a, ast.BinOp) and isinstance(a.op, ast.Add) and U(a.left) == "depth" \
-                    and isinstance(a.right, ast.Constant) and type(a.right.value) is int and frame_extra is None:
-                frame_extra = a.right.value
-            else:
+            k = None
+            if isinstance(a, ast.BinOp) and isinstance(a.op, ast.Add):       # `depth + K` or `K + depth`
+                for x, y in ((a.left, a.right), (a.right, a.left)):
+                    if U(x) == "depth" and isinstance(y, ast.Constant) and type(y.value) is int and y.value >= 0:
+                        k = y.value
+            if k is None or frame_extra is not None:
                 raise Unsupported("Logger._log: get_frame argument: " + U(a))
+            frame_extra = k
     if init_names is None or log_names is None or frame_extra is None:
         raise Unsupported("option names / get_frame(depth + K) not found")
     if len(set(init_names)) != len(init_names) or len(set(log_names)) != len(log_names):
